@@ -169,6 +169,15 @@ pub fn run_sync(sc: &Scenario, cfg: &RunCfg) -> RunResult {
                     apply_mods_sync(&mut lc, mods);
                     ix += 1;
                 }
+                Step::ProbeCert => {
+                    let ret = Ret::Cert(match lc.get_peer_certificate() {
+                        Ok(None) => "none".into(),
+                        Ok(Some(_)) => "some".into(),
+                        Err(_) => "err".into(),
+                    });
+                    world::ev(EvKind::Return { client, step: ix, token: "cert".into(), ret, last_id: 0 });
+                    ix += 1;
+                }
                 Step::Probe => {
                     let ret = Ret::Probe { last_id: lc.last_id(), closed: lc.is_closed() };
                     world::ev(EvKind::Return { client, step: ix, token: "probe".into(), ret, last_id: 0 });
